@@ -233,10 +233,26 @@ func validateCondition(typesys *typesystem.TypeSystem, tk *openfgav1.TupleKey) e
 
 	validCondition := false
 	for _, directlyRelatedType := range typeRestrictions {
-		if directlyRelatedType.GetType() == userType && directlyRelatedType.GetCondition() == tk.GetCondition().GetName() {
-			validCondition = true
-			break
+		if directlyRelatedType.GetType() != userType || directlyRelatedType.GetCondition() != tk.GetCondition().GetName() {
+			continue
 		}
+
+		// The condition must be allowed by the type restriction that matches the kind of user
+		// (object, userset or typed wildcard), not by any restriction that shares the user's type.
+		if directlyRelatedType.GetRelationOrWildcard() != nil {
+			if directlyRelatedType.GetRelation() != "" && directlyRelatedType.GetRelation() != userRelation {
+				continue
+			}
+
+			if directlyRelatedType.GetWildcard() != nil && !tuple.IsTypedWildcard(tk.GetUser()) {
+				continue
+			}
+		} else if tuple.IsTypedWildcard(tk.GetUser()) || userRelation != "" {
+			continue
+		}
+
+		validCondition = true
+		break
 	}
 
 	if !validCondition {
